@@ -17,7 +17,7 @@ for p in props:
     prev=[]
     for d in sorted(glob.glob('/verif/seeded/%s-*/meta.json'%pid)):
         prev.append(json.load(open(d))['title'])
-    legacy = pid in ('C18','C19') or 'legacy' in json.dumps(p.get('anchors',{})) 
+    legacy = pid in ('C18','C19') or 'legacy' in json.dumps(p.get('anchors',{})) or any(not f.startswith('v5/') for f in p.get('anchors',{}).get('files',[]))
     txt=f'''You are helping test a verification effort for the Go library evanphx/json-patch (RFC 6902 JSON Patch, RFC 7396 merge patch, with a forked encoding/json under v5/internal/json). You have your OWN scratch git worktree of the repository at {wt} (a detached checkout). Work ONLY inside that directory (and {out}/ for your deliverables). Do NOT read, list or use anything under /verif or /repo; do not look at other directories under /tmp/seed or /tmp/seedout.
 
 Here is a semantic property the library is supposed to satisfy:
